@@ -314,6 +314,11 @@ def mixed_inputs(fields, key):
     out.append(("mix", "env+dotted-same-key", ("args", [dotted(n) for n in names], {env_name(key, names[-1]): "zzz"})))
     out.append(("mix-group", "env-group-full", ("args", [], {env_name(key): full})))
     out.append(("mix-group", "env-group+dotted", ("args", rest, {env_name(key): part})))
+    # whole-group variable and a member variable together: the member setting wins in every style
+    for n_, t_, alt in fields:
+        if alt is not None and alt != vals[n_] and not isinstance(alt, (list, dict)) and type(alt) is type(vals[n_]):
+            out.append(("mix-group", "env-group-full+env-member", ("args", [], {env_name(key): full, env_name(key, n_): (alt if isinstance(alt, str) else js(alt))})))
+            break
     out.append(("mix", "argv-unknown-dotted", ("args", [dotted(n) for n in names] + ["--%s.zz=1" % key], {})))
     out.append(("mix-group", "argv-group-unknown-key", ("args", ["--%s=%s" % (key, js(dict(vals, zz=1)))], {})))
     out.append(("mix-group", "argv-group-scalar", ("args", ["--%s=3" % key] + [dotted(n) for n in names], {})))
